@@ -143,7 +143,23 @@ def evaluate(case):
     def parse(vec):
         with contextlib.redirect_stderr(io.StringIO()), contextlib.redirect_stdout(io.StringIO()):
             try:
-                return "ok", ap.parse_args(list(vec))
+                if case.get("argv_from") == "sys":
+                    # the usual way a program calls it: no argument, the vector is taken from sys.argv
+                    import sys
+                    saved = sys.argv
+                    sys.argv = ["prog"] + list(vec)
+                    try:
+                        return "ok", ap.parse_args()
+                    finally:
+                        sys.argv = saved
+                if case.get("argv_from") == "tuple":
+                    return "ok", ap.parse_args(tuple(vec))
+                arg = list(vec)
+                try:
+                    return "ok", ap.parse_args(arg)
+                finally:
+                    if arg != list(vec):
+                        f.append(("callers_argument_list_modified", f"parse_args({list(vec)!r}) left the list as {arg!r}"))
             except SystemExit as e:
                 return "exit", e.code
             except Exception as e:   # noqa
@@ -263,7 +279,8 @@ def st_case(draw):
     return {"cmds": cmds, "default": dflt, "opts": list(opts), "spaced": draw(st.booleans()),
             "positional": draw(st.booleans()), "words": words,
             "commands_as": draw(st.sampled_from(["list", "list", "tuple", "iterator"])),
-            "clash": draw(st.sampled_from([None, None, None, None, 0, 1, 2]))}
+            "clash": draw(st.sampled_from([None, None, None, None, 0, 1, 2])),
+            "argv_from": draw(st.sampled_from(["list", "list", "sys", "tuple"]))}
 
 
 def regression_cases():
